@@ -385,6 +385,16 @@ func genC08Case(t *rapid.T) *C08Case {
 	if rapid.IntRange(0, 14).Draw(t, "wideCall") == 0 {
 		wideAt = rapid.IntRange(0, nOps-1).Draw(t, "wideAt")
 	}
+	if rapid.IntRange(0, 24).Draw(t, "manyTagNames") == 12 {
+		// hundreds of tag names in one process (every framework brings its own): one bank type under "valid"
+		// (which has rules for it), then under 300 names it carries nothing for, then under "valid" again
+		one := rapid.IntRange(0, bankSize-1).Draw(t, "manyFrom")
+		c.Ops = append(c.Ops, C08Op{Fill: &C08Fill{From: one, N: 1, Tag: "valid"}})
+		for j := 0; j < 300; j++ {
+			c.Ops = append(c.Ops, C08Op{Fill: &C08Fill{From: one, N: 1, Tag: fmt.Sprintf("j%03d", j)}})
+		}
+		c.Ops = append(c.Ops, C08Op{Fill: &C08Fill{From: one, N: 1, Tag: "valid"}})
+	}
 	var made []*Call
 	for i := 0; i < nOps; i++ {
 		if late != "" && i == regAt {
